@@ -17,7 +17,7 @@ RULE = ('Random well-nested write histories: 1-3 interchanges x 0-3 groups x 0-3
 ASSUMPTIONS = ['a sibling header while a loop of the same level is still open is outside the property\'s domain and not generated',
                'data contains none of the writer\'s delimiters; about a tenth of the histories re-use a control number within its scope: counts and trailers must still be true, only the duplicate-id finding itself is then ignored on re-reading',
                'check_837_lx (LX renumbering) left at its default']
-REQUIRED_COUNTERS = ['runs:5010-source-with-letter-digit-or-blank-in-ISA11', 'runs:isa-field-holding-the-source-component-separator', 'runs:writer-used-again-after-Close', 'runs:control-number-with-foreign-delimiter', 'trailers:wrong:earlier-sibling-id', 'histories', 'runs', 'runs:cut', 'runs:control-number-reused', 'trailers:omitted', 'trailers:wrong', 'reader-rechecks', 'isa:00501', 'isa:00401']
+REQUIRED_COUNTERS = ['runs:blank-padded-interchange-control-number', 'runs:5010-source-with-letter-digit-or-blank-in-ISA11', 'runs:isa-field-holding-the-source-component-separator', 'runs:writer-used-again-after-Close', 'runs:control-number-with-foreign-delimiter', 'trailers:wrong:earlier-sibling-id', 'histories', 'runs', 'runs:cut', 'runs:control-number-reused', 'trailers:omitted', 'trailers:wrong', 'reader-rechecks', 'isa:00501', 'isa:00401']
 MIN_CASES = {'quick': 4000, 'thorough': 1500000}
 
 TERMS = [('~', '*', ':', '^', '\n'), ('!', '|', '>', '^', ''), ('\x1c', '\x1d', '<', '\x1f', '\r\n'), ('\n', '*', ':', '^', ''), ('~', '*', '\\', '^', '\n'),
@@ -37,6 +37,9 @@ def gen(rng):
     for i in range(n_isa):
         icvn = rng.choice(['00401', '00501'])
         isa_id = '%09d' % (i * 7 + rng.randint(1, 5))
+        if rng.random() < 0.12:
+            # a control number padded with blanks instead of zeros (fixed-width senders): the IEA carries it as the ISA does
+            isa_id = str(int(isa_id)).rjust(9) if rng.random() < 0.5 else str(int(isa_id)).ljust(9)
         if i and rng.random() < 0.08:
             isa_id = [e[2] for e in ev if e[0] == 'open' and e[1] == 'ISA'][-1]       # control number used again: the counts must not care
         ev.append(('open', 'ISA', isa_id, icvn))
@@ -272,6 +275,8 @@ def one(ctx, ev, cut, terms, meta):
         return None
     ctx.count('trailers:omitted', info['omitted'])
     ctx.count('trailers:wrong', info['wrong'])
+    if any(e_[0] == 'open' and e_[1] == 'ISA' and e_[2] != e_[2].strip() for e_ in ev[:cut]):
+        ctx.count('runs:blank-padded-interchange-control-number')
     if info.get('src_isa11_alnum'):
         ctx.count('runs:5010-source-with-letter-digit-or-blank-in-ISA11')
     if info.get('isa_field_with_source_separator'):
